@@ -841,6 +841,8 @@ def run(rep: common.Report):
         b.error = repr(e)
     b.seconds = time.time() - t0
     rep.bounded.append(b)
+    from vc.static import state as _state
+    rep.add(_state.obligation(PID, ('cal', 'timezone/tzp', 'timezone/zoneinfo', 'timezone/pytz'), Obligation, PROVED, UNDECIDED))
     rep.explanation = __doc__ + "\nLevel 'other': the order / onset obligations give the RFC rule for the pytz provider modulo pytz's stated contract; the " \
         "zoneinfo provider delegates interpretation to dateutil's tzical: only explored."
 
